@@ -1,17 +1,17 @@
 SPECIFICATION MCSpec
 CONSTANTS
   NP = 2
-  POLS <- PolsAny2
+  POLS <- PolsQuick
   BS = 2
   TSIZES = {3}
   MAXSZ = 4
   PARS = {1, 2}
-  QS = {1, 2}
+  QS = {2}
   ADVS = {0, 1, 3, 4, 5}
   LENS = {0, 1, 2, 3}
-  RESTART = FALSE
-  DUPOKS = {TRUE, FALSE}
-  DROPS = TRUE
+  MODES = {"asis", "asis_nodrop", "fixed"}
+  DUPOKS = {TRUE}
   PRIVATES = {FALSE}
 INVARIANT Inv
+PROPERTY Live
 CHECK_DEADLOCK FALSE
